@@ -37,7 +37,7 @@ def arbitrary_order(rnd, label):
 
 
 # the recorded input of the known finding (child promoted before its step-parent / ancestor across a gap): always replayed
-KNOWN_INPUT = "SCEN kf0\nmake localp 2 3 3 3 semi-localp 0\nbegin\ncandl -1 -1 classic 0\nloadpool 1 0 369473 1\nfinish\n"
+KNOWN_INPUT = "SCEN kf0 0\nmake localp 2 3 3 3 semi-localp 0\nbegin\ncandl -1 -1 classic 0\nloadpool 1 0 369473 1\nfinish\n"
 
 
 def fixed_target(rnd, label):
